@@ -328,3 +328,82 @@ class NumpyRoundTrip(Family):
         ctx.skolem(z3.And(0 <= c, c < w))
         ctx.prove("post.shape", z3.And(dim_term(M.shape_[0]) == g.n, dim_term(M.shape_[1]) == w))
         ctx.prove("post.M[r,c]==cell(r,c)", M.get(r, c) == g.D.fn(g.S(r) + c))
+
+
+@register
+class IndexArray(Family):
+    """index_array()[j] = the row containing flat position j, for every j < size (empty rows skipped).
+    bincount of the row starts, then cumsum: four small inductions over ghost counting functions
+       cnt(k, i) = #{t < i : S(t+1) == k}          (bincount contract)
+       H(j, i)   = sum_{k <= j} cnt(k, i)            le(j, i) = #{t < i : S(t+1) <= j}
+       (A) H(j,i+1) = H(j,i) + [S(i+1) <= j]   (B) H(j,i) = le(j,i)   (C) cumsum[j] = H(j, n-1)   (D) le(j,i) = min(i, rho(j))"""
+    name = "ViewBase.index_array"
+    qualname = "npstructures.raggedshape:ViewBase.index_array"
+    serves = ["C01", "C07", "C19"]
+    timeout_ms = 30000
+    assumed = ["numpy.bincount contract", "numpy.cumsum = prefix sums",
+               "lemma (unproved, standard): every flat position j < S(n) lies in exactly one (non-empty) row"]
+
+    def run(self, ctx, kind):
+        g = sym_shape(ctx)
+        n, S, L = g.n, g.S, g.L
+        size = S(n)
+        rho = z3.Function(fresh_name("rho"), z3.IntSort(), z3.IntSort())
+        ctx.assume_forall("rho", lambda j: z3.Implies(z3.And(0 <= j, j < size), z3.And(0 <= rho(j), rho(j) < n, S(rho(j)) <= j, j < S(rho(j) + 1))))
+        ctx.add_index(n, n - 1, n - 2, z3.IntVal(0), z3.IntVal(1))
+        out = g.obj.index_array()
+        if isinstance(out, np.ndarray):
+            ctx.prove("post.no rows: empty", z3.And(n == 0, z3.BoolVal(out.size == 0)))
+            return
+        ctx.prove("post.len==size", dim_term(out.shape_[0]) == size)
+        if not ctx.ghost.get("bincount"):
+            return
+        bc = ctx.ghost["bincount"][-1]
+        cnt, m = bc["cnt"], bc["m"]                     # m = n - 1 entries: x[t] = S(t+1)
+        ps = ctx.ghost["prefix_sums"][-1]["ps"]
+        H = z3.Function(fresh_name("H"), z3.IntSort(), z3.IntSort(), z3.IntSort())
+        le = z3.Function(fresh_name("le"), z3.IntSort(), z3.IntSort(), z3.IntSort())
+        ind = lambda c: z3.If(c, z3.IntVal(1), z3.IntVal(0))
+        ctx.assume_forall("H.base", lambda i: H(-1, i) == 0)
+        ctx.assume_forall("H.step", lambda j, i: z3.Implies(j >= 0, H(j, i) == H(j - 1, i) + cnt(j, i)), arity=2)
+        ctx.assume_forall("le.base", lambda j: le(j, 0) == 0)
+        ctx.assume_forall("le.step", lambda j, i: z3.Implies(z3.And(0 <= i, i < m), le(j, i + 1) == le(j, i) + ind(S(i + 1) <= j)), arity=2)
+        j, i = z3.Int("j"), z3.Int("i")
+        rng = z3.And(0 <= i, i < m)
+        ctx.prove("lemmaA.base", z3.Implies(rng, H(-1, i + 1) == H(-1, i) + ind(S(i + 1) <= -1)), pool=[i, i + 1, z3.IntVal(-1), z3.IntVal(0)])
+        ctx.prove("lemmaA.step", z3.Implies(z3.And(rng, j >= 0, H(j - 1, i + 1) == H(j - 1, i) + ind(S(i + 1) <= j - 1)),
+                                            H(j, i + 1) == H(j, i) + ind(S(i + 1) <= j)), pool=[i, i + 1, j, j - 1])
+        ctx.assume_forall("lemmaA", lambda jj, ii: z3.Implies(z3.And(0 <= ii, ii < m, jj >= -1), H(jj, ii + 1) == H(jj, ii) + ind(S(ii + 1) <= jj)), arity=2)
+        ctx.prove("lemmaB.base: H(j,0)==0 (induction on j)", z3.Implies(z3.And(j >= 0, H(j - 1, 0) == 0), H(j, 0) == 0), pool=[j, j - 1, z3.IntVal(0)])
+        ctx.assume_forall("H(j,0)==0", lambda jj: z3.Implies(jj >= -1, H(jj, 0) == 0))
+        ctx.prove("lemmaB.step", z3.Implies(z3.And(rng, j >= -1, H(j, i) == le(j, i)), H(j, i + 1) == le(j, i + 1)), pool=[i, i + 1, j])
+        ctx.assume_forall("lemmaB", lambda jj, ii: z3.Implies(z3.And(0 <= ii, ii <= m, jj >= -1), H(jj, ii) == le(jj, ii)), arity=2)
+        ctx.prove("lemmaC.step: cumsum[j] == H(j, n-1)", z3.Implies(z3.And(0 <= j, j <= size, ps(j) == z3.If(j == 0, 0, H(j - 1, m))), ps(j + 1) == H(j, m)),
+                  pool=[j, j - 1, j + 1, m, z3.IntVal(0)])
+        ctx.assume_forall("lemmaC", lambda jj: z3.Implies(z3.And(0 <= jj, jj <= size), ps(jj + 1) == H(jj, m)))
+        # (D) for a fixed position j < size: le(j, i) == min(i, rho(j)), by induction on i
+        ctx.skolem(z3.And(0 <= j, j < size))
+        mn = lambda a_, b_: z3.If(a_ <= b_, a_, b_)
+        ctx.prove("lemmaD.base", le(j, 0) == mn(z3.IntVal(0), rho(j)), pool=[j, z3.IntVal(0), rho(j)])
+        ctx.prove("lemmaD.step", z3.Implies(z3.And(rng, le(j, i) == mn(i, rho(j))), le(j, i + 1) == mn(i + 1, rho(j))),
+                  pool=[j, i, i + 1, i + 2, rho(j), rho(j) + 1])
+        ctx.assume_forall("lemmaD", lambda ii: z3.Implies(z3.And(0 <= ii, ii <= m), le(j, ii) == mn(ii, rho(j))))
+        ctx.prove("post.index_array[j] == row containing j", out.get(j) == rho(j), pool=[j, m, rho(j), n, n - 1])
+
+    def concrete(self, case):
+        from npstructures.raggedshape import RaggedShape
+        ls = case["lengths"]
+        if not sum(ls):
+            return None
+        got = np.asarray(RaggedShape(ls).index_array()).tolist()
+        exp = [r for r, l in enumerate(ls) for _ in range(l)]
+        if got != exp:
+            return {"msg": f"index_array on row lengths {ls}: {got}, expected {exp}", "sig": "wrong:index_array"}
+
+    def concretise(self, kind, model, ghost):
+        return None
+
+    def bounded_cases(self, tier, seed):
+        from ..bounded.common import length_vectors
+        for ls in length_vectors(4, 3):
+            yield {"lengths": ls}
